@@ -39,6 +39,9 @@ THEOREMS = [
     "batch_independent_and", "batch_independent_cmp",
     # reason tags = forced hypotheses (node level); casts; IS NULL
     "arith_no_tag", "or_no_tag", "select_no_tag", "cast_pointwise", "isnull_pointwise",
+    # whole expression trees
+    "evalK_len", "eval_tree_pointwise", "like_abs", "substring_abs", "replace_abs", "repeat_abs",
+    "concat_abs", "neg_abs",
 ]
 
 # The witnesses of the `…_unsound` theorems, as requests (replayed on the implementation).
